@@ -163,6 +163,18 @@ def gen_case(rnd, kind):
             prog.files[0].stmts.append(apm.simple(".even"))
             prog.files[0].stmts.append(apm.repeat(apm.num(rnd.randrange(0, 41), "d"), [apm.data(".word", ("bin", "/", ("dot",), apm.num(2))),
                                                                                          apm.insn("mov", ("idx", ("bin", "+", apm.num(4), apm.num(2)), 1), ("reg", 1))]))
+        if rnd.random() < 0.4:
+            # a table built by a repeat whose body is plain data, with '.' only INSIDE brackets
+            dot = ("dot",)
+            pool = [apm.data(".byte", ("bin", "*", ("grp", ("bin", "-", dot, ("sym", "tbl7"))), apm.num(2))),
+                    apm.data(".byte", ("bin", "&", ("grp", dot), apm.num(0o177))),
+                    apm.data(".byte", ("grp", ("bin", "-", dot, ("sym", "tbl7"))), apm.num(0o125)),
+                    apm.wordlist(apm.num(rnd.randrange(0x10000)), ("grp", ("bin", "-", dot, ("sym", "tbl7")))),
+                    apm.blk(".blkb", ("bin", "&", ("grp", dot), apm.num(1)))]
+            body = [rnd.choice(pool[:3])] + ([rnd.choice(pool)] if rnd.random() < 0.4 else [])
+            if any(b.k == "wordlist" for b in body):
+                body = [apm.simple(".even")] + body
+            prog.files[-1].stmts += [apm.simple(".even"), apm.label("tbl7"), apm.repeat(apm.num(rnd.randrange(2, 16), "d"), body), apm.simple(".even")]
         try:
             apm.Ref(prog).run()
             counts = count_values(prog)
@@ -174,10 +186,14 @@ def gen_case(rnd, kind):
         if rnd.random() < 0.3:
             # every file exports through a leading '.extern all' instead of '::' (mixing the two styles in ONE file reports the '::' names
             # as exported twice, so the concatenation would not be the same program)
-            for f in prog.files:
+            for fi, f in enumerate(prog.files):
                 for st in f.stmts:
                     st.labels = [(n, "label" if kind == "extern" else kind) for n, kind in st.labels]
-                f.stmts.insert(0, apm.extern("all"))
+                # a constant of this file that the next file uses; '.extern all' first, last or in between (it covers both directions)
+                f.stmts.insert(rnd.randrange(len(f.stmts) + 1), apm.assign(f"lk{fi}c", apm.num(rnd.choice([6, 0o100, 0o177776]))))
+                f.stmts.insert(rnd.choice([0, len(f.stmts), rnd.randrange(len(f.stmts) + 1)]), apm.extern("all"))
+            for fi, f in enumerate(prog.files):
+                f.stmts += [apm.simple(".even"), apm.data(".word", ("sym", f"lk{(fi + 1) % len(prog.files)}c"))]
             try:
                 apm.Ref(prog).run()
             except (apm.RefError, apm.Unmodelled):
